@@ -4,7 +4,7 @@
 (* A behaviour builds a FIX schema on top of a fixed skeleton (standard header, trailer and the      *)
 (* seven session messages the runtime needs) with the actions                                        *)
 (*   DeclField(type, realm?)   AddMessage(admin?)   AddComponent                                     *)
-(*   DeclPair / PutPair        a LENGTH field and its DATA field (number + 1), placed together in a message    *)
+(*   DeclPair / PutPair        a LENGTH field and its DATA field (number + 1), placed together      *)
 (*   PutField(target)          place a declared field into a message, a component or a group         *)
 (*   UseComponent(target)      reference a component from a message or a group                       *)
 (*   AddGroup(target)          new repeating group (count field, first member) in a message or       *)
@@ -12,14 +12,16 @@
 (*   ReuseCountField           a second message uses an existing group's count field with the same,  *)
 (*                             a reflagged, a reordered, a different-members or a different-nested    *)
 (*                             definition                                                             *)
-(*   Finish                    the schema is complete: exported as one LEAF line                     *)
+(*   Finish                    drops what was never filled in; the schema is exported as a LEAF line *)
+(* in a canonical order (declarations, containers, then members container by container) that only    *)
+(* removes permutations building the same schema.                                                    *)
 (* The state S *is* the meaning of the schema (SchemaOps: Members, ValidSchema); every reachable     *)
 (* state is a valid schema (invariant Valid).                                                        *)
 (*                                                                                                  *)
-(* The second half models what the compiler does with repeating groups: it keeps one table of group  *)
+(* SchemaOps models what the compiler does with repeating groups: it keeps one table of group        *)
 (* definitions per count field, keyed by an identity of the definition, and every occurrence of a     *)
 (* group uses the traits of the *first* definition registered under its key (compiler/f8c.cpp         *)
-(* parse_groups / find_group).  Ideal design: the key is the definition itself.  Deviations:          *)
+(* parse_groups / find_group).  Ideal design: the key is the definition itself.  Deviations (Dev):    *)
 (*   "flags_order_not_in_identity"  the key digests member numbers and nested groups only             *)
 (*   "hash_identity"                the key is the 32-bit rothash of that digest                      *)
 (* Properties: OwnTraits (every group occurrence gets the members, flags, order and nested groups of  *)
@@ -35,7 +37,7 @@ CONSTANTS FieldNums,       \* numbers of the declarable body fields, in declarat
           MaxDepth, MaxItems,
           MaxSteps,        \* bound on the number of placement steps (declarations and container creation are not counted)
           MinSteps,        \* Finish needs at least this many placement steps (simulation: keep walking)
-          Variants,        \* reuse variants enabled: subset of {"same","flags","order","members","nested"}
+          Variants,        \* reuse variants enabled: subset of {"same", "flags", "order", "members", "nested"}
           Dev
 \* FieldOptions(i): the [type, realm] choices for the i-th declared field (defined by the MC module)
 CONSTANT FieldOptions(_)
